@@ -43,14 +43,22 @@ def _fixt(i):
     return i
 
 
+def _m2(i): return 0 if i % 2 == 0 else 1
+def _m3(i):
+    r = i % 3
+    return 0 if r == 0 else (1 if r == 1 else 2)
+
+
+# key mappers / split predicates.  The residue is concretised by a comparison
+# cascade so that the solver (not a hash of a symbolic value) picks the group.
 KM = {
-    'mod2': lambda i: i % 2,
-    'tup2': lambda i: (i % 2, 'g'),            # fresh tuple per call: equal, never identical
-    'big2': lambda i: 10 ** 20 + i % 2,        # large ints are not cached
-    'flt2': lambda i: float(i % 2),
+    'mod2': _m2,
+    'tup2': lambda i: (_m2(i), 'g'),            # fresh tuple per call: equal, never identical
+    'big2': lambda i: 10 ** 20 + _m2(i),        # large ints are not cached
+    'flt2': lambda i: (0.25 + _m2(i)) * 2.0,    # floats computed at run time: equal, never identical
     'str2': lambda i: 'k' + ('0' if i % 2 == 0 else '1'),
-    'mod3': lambda i: i % 3,
-    'tup3': lambda i: (i % 3,),
+    'mod3': _m3,
+    'tup3': lambda i: (_m3(i),),
     'div3': lambda i: (i // 3,),
     'fst': lambda i: i[0],
 }
